@@ -599,7 +599,8 @@ def canon(sp):
     return t + (b'.' + x if x else b'')
 
 
-MASKS = [b'*.*', b'a*', b'*.c', b'A?.*', b'*.DAT', b'?']
+# (brackets are not wildcards in DOS: no name matches them)
+MASKS = [b'*.*', b'a*', b'*.c', b'A?.*', b'*.DAT', b'?', b'a[b]', b'[a]b.c', b'a[!x].*']
 
 
 def dos_match(mask, name):
